@@ -287,13 +287,15 @@ def case_fn(ctx, inp):
             ctx.eq("masked_where: Lean vs dask", [v == "m" for v in m], np.ma.getmaskarray(got[1]).tolist())
             ctx.branch("lean-value")
     elif fn == "set_fill_value":
+        src = dec_ma(inp["a"])      # own source: NumPy's set_fill_value below reaches `a` through the shared fill value of a.copy()
+
         def impl():
-            y = da.from_array(a, chunks=chunks)
+            y = da.from_array(src, chunks=chunks)
             da.ma.set_fill_value(y, args[0])
             return U.sync_compute(y)
 
         def ref():
-            b = a.copy()
+            b = dec_ma(inp["a"])
             np.ma.set_fill_value(b, args[0])
             return b
         got, exp = U.run_both(impl, ref)
@@ -471,6 +473,7 @@ def case_seq(ctx, inp):
 
 
 CASES = {"seq": case_seq, "joint": case_joint, "construct": case_construct, "elemwise": case_elemwise, "reduce": case_reduce, "fn": case_fn, "cum": case_cum}
+CASES = {k: U.pure_sources(v) for k, v in CASES.items()}
 
 
 # ---------------------------------------------------------------------------------------------
